@@ -125,6 +125,30 @@ def h_real_path(ctx):
     ctx.claim("point(0)/point(1) are the first and last point", ctx.and_(ctx.eq(p0.x, pts[0][0]), ctx.eq(p0.y, pts[0][1]), ctx.eq(p1.x, pts[0][0]), ctx.eq(p1.y, pts[0][1])))
 
 
+def h_reverse_cache(ctx, view):
+    """point(t) after the path (or its subpath view) was reversed: the walk follows the new order, whatever was cached before"""
+    S = ctx.S
+    a, b = ctx.real("a", 0.001, V), ctx.real("b", 0.001, V)
+    p = S.Path(S.Move(None, (0, 0)), S.Line((0, 0), (a, 0)), S.Line((a, 0), (a, b)))
+    t = ctx.real("t", 0, 1)
+    s = ctx.real("s", 0, 1)
+    ctx.assume(ctx.and_(ctx.xgt(t, 0), ctx.xlt(t, 1), ctx.xgt(s, 0), ctx.xlt(s, 1)))
+    q0 = p.point(t)       # fills the cumulative-length cache
+    along = t * (a + b)
+    ctx.claim("before reversal: point(t) at t * length along M L L", ctx.and_(ctx.implies(ctx.lt(along, a), ctx.and_(ctx.eq(q0.x, along), ctx.eq(q0.y, 0))),
+                                                                          ctx.implies(ctx.gt(along, a), ctx.and_(ctx.eq(q0.x, a), ctx.eq(q0.y, along - a)))))
+    if view:
+        p.subpath(0).reverse()
+    else:
+        p.reverse()
+    ctx.claim("length unchanged by reversal", ctx.eq(p.length(), a + b))
+    q = p.point(s)
+    d = s * (a + b)
+    ctx.claim("after reversal: point(s) at s * length along the reversed path",
+              ctx.and_(ctx.implies(ctx.lt(d, b), ctx.and_(ctx.eq(q.x, a), ctx.eq(q.y, b - d))),
+                       ctx.implies(ctx.gt(d, b), ctx.and_(ctx.eq(q.x, a - (d - b)), ctx.eq(q.y, 0)))))
+
+
 def h_arc_circle(ctx, coincident):
     S = ctx.S
     cx, cy = ctx.reals("cx cy", -V, V)
@@ -190,6 +214,8 @@ def h_twin(ctx):
 
 def harnesses(tier):
     hs = []
+    for view in (False, True):
+        hs.append({"name": "reverse_cache/view=%s" % view, "fn": "h_reverse_cache", "params": {"view": view}})
     for k in ("Line", "Close"):
         for w in ("rotate", "reflect", "scale", "reverse"):
             hs.append({"name": "linear/%s/%s" % (k, w), "fn": "h_linear", "params": {"kind": k, "what": w}})
